@@ -58,6 +58,32 @@ def whole_program_mutants():
         out.append(({"name": f"wide_index_datum_{ix}"}, HEAD + "tx t(n: Int) { output { to: Receiver, amount: Ada(1), datum: %s#%d, } }" % (ref, ix)))
     for num in (2**63 - 1, -2**63, 2**32, 2**31):
         out.append(({"name": f"wide_number_{num}"}, HEAD + "tx t(n: Int) { output { to: Receiver, amount: Ada(%d), datum: Rec { f1: %d, f2: 0x, }, } validity { until_slot: %d, } }" % (num, num, num)))
+    # (valid programs) a chain of locals whose head is mentioned by ONE block other than an input or an output: every
+    # block of a transaction sees the definitions as resolved as the outputs see them
+    for depth in (1, 2, 3, 5):
+        chain = "l1: n + 1, " + " ".join("l%d: l%d + %d," % (i + 1, i, i) for i in range(1, depth))
+        head = "l%d" % depth
+        io = "input source { from: Sender, min_amount: fees, } output { to: Receiver, amount: source - fees, }"
+        users = {"validity": "validity { until_slot: %s, }" % head, "since": "validity { since_slot: %s, }" % head,
+                 "mint": "mint { amount: AnyAsset(Pol, \"x\", %s), redeemer: (), }" % head,
+                 "burn": "burn { amount: AnyAsset(Pol, \"x\", %s), redeemer: (), }" % head,
+                 "metadata": "metadata { 1: %s, }" % head, "metadata_bare": None,
+                 "withdrawal": "cardano::withdrawal { from: Sender, amount: %s, redeemer: (), }" % head,
+                 "donation": "cardano::treasury_donation { coin: %s, }" % head,
+                 "mint_redeemer": "mint { amount: Tok(1), redeemer: %s, }" % head,
+                 "signers": None, "reference": None}
+        for uname, block in users.items():
+            if uname == "metadata_bare":
+                src = "tx t(n: Int) { locals { %s } metadata { 1: %s, } }" % (chain, head)
+            elif uname == "signers":
+                bchain = "l1: b, " + " ".join("l%d: l%d," % (i + 1, i) for i in range(1, depth))
+                src = "tx t(b: Bytes) { locals { %s } %s signers { %s, } }" % (bchain, io, head)
+            elif uname == "reference":
+                rchain = "l1: r, " + " ".join("l%d: l%d," % (i + 1, i) for i in range(1, depth))
+                src = "tx t(r: UtxoRef) { locals { %s } %s reference rf { ref: %s, } }" % (rchain, io, head)
+            else:
+                src = "tx t(n: Int) { locals { %s } %s %s }" % (chain, io, block)
+            out.append(({"name": f"chain_used_by_{uname}_{depth}"}, HEAD + src))
     # a constructor without a case name on a type with several cases (there is no `Default` case to build)
     out.append(({"name": "implicit_ctor_variant"}, HEAD + "tx t(n: Int, b: Bytes) { output { to: Receiver, amount: Ada(1), datum: Var { x: n, y: b, }, } }"))
     out.append(({"name": "implicit_ctor_shared_fields"}, HEAD + "type Side { Buy { price: Int, }, Sell { price: Int, }, Hold { price: Int, }, } tx t(n: Int) { output { to: Receiver, amount: Ada(1), datum: Side { price: n, }, } }"))
